@@ -450,7 +450,7 @@ func genScript(t *rapid.T) Script {
 		// a writer opened in a gap with explicit commits is steered towards overrunning it
 		target := -1
 		for _, id := range sortedIDs(st.Writers) {
-			if w := st.Writers[id]; !w.AutoCommit && !w.DataOnly && w.Bound < tsInf {
+			if w := st.Writers[id]; (!w.AutoCommit || !w.Sync) && !w.DataOnly && w.Bound < tsInf {
 				target = id
 			}
 		}
@@ -494,7 +494,10 @@ func genScript(t *rapid.T) Script {
 				}
 				op.TS = append(op.TS, w.Avail[w.Wrote:w.Wrote+k]...)
 			} else {
-				overrun := !w.AutoCommit && w.Bound < tsInf && rapid.Bool().Draw(t, "overrun")
+				// explicit commits, or auto-commit without acknowledgements: the write itself is
+				// accepted and the refusal has to surface at the commit that follows (with
+				// acknowledged auto-commit writes the write call itself fails: a discard)
+				overrun := (!w.AutoCommit || !w.Sync) && w.Bound < tsInf && rapid.Bool().Draw(t, "overrun")
 				ts := w.Last
 				for i := 0; i < k; i++ {
 					nx := ts + spacing()
